@@ -608,6 +608,11 @@ func c20GuessJudge(r *Result, c c20GuessCase) bool {
 		r.Violate(Violation{Kind: "correspondence", Suite: "mig.guesstable", Input: c, Note: err.Error()})
 		return false
 	}
+	return c20GuessCompare(r, c, real, ops, outs)
+}
+
+// c20GuessCompare: the model's answers (one per op of the case) against what the real code answered
+func c20GuessCompare(r *Result, c c20GuessCase, real []map[string]interface{}, ops [][]interface{}, outs []json.RawMessage) bool {
 	var model []map[string]interface{}
 	for i, raw := range outs {
 		var m map[string]interface{}
@@ -660,6 +665,15 @@ func c20TieGuess(r *Result, rng *rand.Rand, tier string) {
 	}
 	names := []string{"items", "main.items", "main.items", "aux.items", "Main.Items", "a.b.c", "x_y", "main.order", "s1.t_2", ".lead", "trail.", "tp_items"}
 	fixed := []string{"hasmany-child-qualified", "hasone-child-qualified", "many2many-join-qualified", "belongsto-self-qualified"}
+	// (the real code runs case by case; the model is asked ONCE for the whole batch: one driver process instead of n)
+	type pending struct {
+		c    c20GuessCase
+		real []map[string]interface{}
+		ops  [][]interface{}
+		at   int
+	}
+	var pend []pending
+	var batch [][]interface{}
 	for i := 0; i < n && !expired(); i++ {
 		c := c20GuessCase{Table: names[rng.Intn(len(names))]}
 		if i < len(names) {
@@ -694,12 +708,30 @@ func c20TieGuess(r *Result, rng *rand.Rand, tier string) {
 				c.Fields = fs
 			}
 		}
-		ok := c20GuessJudge(r, c)
-		r.Case("mig.guesstable", canon(c), ok)
+		if real, ops, err := c20GuessRun(c); err != nil {
+			r.H("guesstable.skip", strings.SplitN(err.Error(), ":", 2)[0])
+			r.Case("mig.guesstable", canon(c), false)
+		} else {
+			pend = append(pend, pending{c, real, ops, len(batch)})
+			batch = append(batch, ops...)
+		}
 		r.H("guesstable.table", c.Table)
 		if c.Via != "" {
 			r.H("guesstable.via", c.Via)
 		}
+	}
+	if len(batch) == 0 {
+		return
+	}
+	outs, err := AskLean(batch)
+	for _, p := range pend {
+		ok := false
+		if err != nil { // fall back to case-by-case questions so that the failing case is named
+			ok = c20GuessJudge(r, p.c)
+		} else {
+			ok = c20GuessCompare(r, p.c, p.real, p.ops, outs[p.at:p.at+len(p.ops)])
+		}
+		r.Case("mig.guesstable", canon(p.c), ok)
 	}
 }
 
